@@ -3,6 +3,8 @@ Association-list and arithmetic helper lemmas for the C06 proofs (additions to U
 -/
 import LinVerif.Model.FanOut
 
+set_option linter.unusedSimpArgs false
+
 namespace LinVerif.FanOut
 open LinVerif.Map
 
